@@ -294,6 +294,9 @@ def judge(case, out, storedir):
 
 def run_case(case):
     common.import_repo()
+    if 'stack' in case:
+        from .. import svc_stack
+        return svc_stack.run_case(case, 'c15:')
     tmp = tempfile.mkdtemp(prefix='vp_c15_', dir=os.environ.get('VP_TMP') or None)
     viol = []
     first_bad = [None]
@@ -345,3 +348,7 @@ def finalize(rep, tier, seed):
     c['preemption_bound_completed'] = 2 if tier == 'thorough' else 1
     c['explanation'] = 'schedules = complete executions of the real threads; states/transitions = scheduling decisions taken'
     rep.exhaustive = not c.get('capped')
+    # two associations storing the same SOP instance into the directory-backed entity at the same time (file-system look-up and
+    # create are scheduling points), with and without an earlier copy in the directory
+    from .. import svc_stack
+    svc_stack.extend(rep, ID, tier, seed, 'vp.checks.c15')
